@@ -126,3 +126,175 @@ Definition shape_elems (c : cfg) (mt : objtype) (ptrs lps : list (pinfo * ty)) :
   somes (map (ptr_elem c (tid c)) ptrs) ++ map (lprop_elem (tid c) mt) lps.
 
 End Spec.
+
+(* ------------------------------------------------------------------ expected descriptions *)
+(* What a faithful descriptor of a type must decode to: exactly the names, element order,
+   cardinalities, element types, tuple/array/range structure and enum labels of the type
+   (plus, in protocol >= 2, schema names / ancestors / object types / element sources).
+   [z] stands for the first descriptor of the stream: the source_type index of the elements of
+   an ephemeral free shape is 0 ("should not be interpreted"), which the repo's own parse()
+   nevertheless resolves. *)
+
+Definition map_until {A B} (stop : A -> bool) (f : A -> B) : list A -> list B :=
+  fix go (l : list A) : list B :=
+    match l with
+    | [] => []
+    | a :: r => if stop a then [f a] else f a :: go r
+    end.
+
+Definition exp_topmost (f : scalar -> desc) : list scalar -> option desc :=
+  fix go (l : list scalar) : option desc :=
+    match l with
+    | [] => None
+    | a :: r => match go r with
+                | Some x => Some x
+                | None => if sabstract a then None else Some (f a)
+                end
+    end.
+
+Section Expect.
+Variable H : str -> uuid.
+Variable c : cfg.
+Variable z : desc.
+
+Fixpoint exp_scalar (sc : scalar) : desc :=
+  match sc with
+  | Scalar id name ab anc en =>
+      match topmost sc with
+      | None => DEnum id None en
+      | Some top =>
+          let is_fund := uuid_eqb id (sid top) in
+          if v2 c then
+            let ancs := if is_fund then []
+                        else map_until (fun a => uuid_eqb (sid a) (sid top)) exp_scalar anc in
+            if is_nil en then DScalar id (Some (name, true)) (last (map Some ancs) None) (Some ancs)
+            else DEnum id (Some (name, true, ancs)) en
+          else if negb (is_nil en) then DEnum id None en
+          else if is_fund then DBase id
+          else match exp_topmost exp_scalar anc with
+               | Some d => DScalar id None (Some d) None
+               | None => DBase id
+               end
+      end
+  end.
+
+Fixpoint exp_obj (o : objtype) : desc :=
+  match o with
+  | ORegular id name => DObject id name true
+  | OCompound id name un it =>
+      match un with
+      | _ :: _ => DCompound id name false OP_UNION (map exp_obj un)
+      | [] => match it with
+              | _ :: _ => DCompound id name false OP_INTERSECTION (map exp_obj it)
+              | [] => DObject id name true
+              end
+      end
+  end.
+
+Definition hdr_exp (name : str) (pers : bool) : option (str * bool * list desc) :=
+  if v2 c then Some (name, pers, []) else None.
+
+Definition elem_flags (impl : bool) (e : elem) : N :=
+  (if e_lp e then FLAG_IS_LINKPROP else 0)
+  + (if (impl && str_eqb (e_name e) s_id) || str_eqb (e_name e) s_tid || str_eqb (e_name e) s_tname
+     then FLAG_IS_IMPLICIT else 0)
+  + (if e_link e then FLAG_IS_LINK else 0).
+
+Definition delem_of (free impl : bool) (ed : elem * desc) : N * N * str * desc * option desc :=
+  let e := fst ed in
+  (elem_flags impl e, e_card e, e_name e, snd ed,
+   if v2 c then (if free then Some z else Some (exp_obj (e_src e))) else None).
+
+(* element record + description of its type, for a pointer / a link property *)
+Definition ptr_ed (ft : ty -> uuid) (fd : ty -> desc) (p : pinfo * ty) : option (elem * desc) :=
+  match ptr_elem H c ft p with
+  | None => None
+  | Some e =>
+      let base := if plink (fst p) && negb (follow c) then exp_scalar (uuid_sc c) else fd (snd p) in
+      Some (e, if pmulti (fst p) then DSet (e_sub e) base else base)
+  end.
+
+Definition lprop_ed (ft : ty -> uuid) (fd : ty -> desc) (mt : objtype) (p : pinfo * ty) : elem * desc :=
+  let e := lprop_elem H ft mt p in
+  (e, if pmulti (fst p) then DSet (e_sub e) (fd (snd p)) else fd (snd p)).
+
+Definition shape_otype (mt : objtype) (free : bool) : option desc :=
+  if v2 c && negb free then Some (exp_obj mt) else None.
+
+Fixpoint expect (t : ty) : desc :=
+  match t with
+  | TScalar sc => exp_scalar sc
+  | TTuple named pers name els =>
+      if named then
+        DNamedTuple (tid H c t) (hdr_exp name pers) (map (fun p => (fst p, expect (snd p))) els)
+      else DTuple (tid H c t) (hdr_exp name pers) (map (fun p => expect (snd p)) els)
+  | TArray pers name el => DArray (tid H c t) (hdr_exp name pers) (expect el)
+  | TRange pers name el => DRange (tid H c t) (hdr_exp name pers) (expect el)
+  | TMultiRange pers name el => DMultiRange (tid H c t) (hdr_exp name pers) (expect el)
+  | TShape mt free impl ptrs lps =>
+      DShape (tid H c t) (shape_otype mt free)
+             (map (delem_of free impl)
+                  (somes (map (ptr_ed (tid H c) expect) ptrs)
+                     ++ map (lprop_ed (tid H c) expect mt) lps))
+  | TInput mt free _ => DShape (tid H c t) (shape_otype mt free) []
+  end.
+
+(* ------------------------------------------------------------------ entities *)
+(* everything that can get a descriptor of its own while a type is described *)
+Inductive entity :=
+| EScalar (s : scalar)
+| EObj (o : objtype)
+| ETy (t : ty)
+| ESet (t : ty).
+
+Definition eid (e : entity) : uuid :=
+  match e with
+  | EScalar s => sid s
+  | EObj o => oid o
+  | ETy t => tid H c t
+  | ESet t => set_id H (tid H c t)
+  end.
+
+Definition eexp (e : entity) : desc :=
+  match e with
+  | EScalar s => exp_scalar s
+  | EObj o => exp_obj o
+  | ETy t => expect t
+  | ESet t => DSet (set_id H (tid H c t)) (expect t)
+  end.
+
+Fixpoint ents_scalar (sc : scalar) : list entity :=
+  match sc with
+  | Scalar _ _ _ anc _ => EScalar sc :: flat_map ents_scalar anc
+  end.
+
+Fixpoint ents_obj (o : objtype) : list entity :=
+  EObj o :: match o with
+            | ORegular _ _ => []
+            | OCompound _ _ un it => flat_map ents_obj un ++ flat_map ents_obj it
+            end.
+
+Fixpoint ents (t : ty) : list entity :=
+  ETy t ::
+  match t with
+  | TScalar sc => ents_scalar sc
+  | TTuple _ _ _ els => flat_map (fun p => ents (snd p)) els
+  | TArray _ _ el | TRange _ _ el | TMultiRange _ _ el => ents el
+  | TShape mt _ _ ptrs lps =>
+      ents_obj mt ++ ents_scalar (uuid_sc c)
+        ++ flat_map (fun p => ESet (snd p) :: ents_obj (psource (fst p)) ++ ents (snd p)) ptrs
+        ++ flat_map (fun p => ESet (snd p) :: ents (snd p)) lps
+  | TInput mt _ _ => ents_obj mt
+  end.
+
+(* the entities strictly below an entity *)
+Definition proper (e : entity) : list entity :=
+  match e with
+  | EScalar s => tl (ents_scalar s)
+  | EObj o => tl (ents_obj o)
+  | ETy (TScalar s) => tl (ents_scalar s)       (* a scalar type is its own (only) descriptor *)
+  | ETy t => tl (ents t)
+  | ESet t => ents t
+  end.
+
+End Expect.
